@@ -68,6 +68,9 @@ def scan_assumptions(asm, sc):
             tok = m.group(1).rstrip('( ')
             if o.kind == 'raw' and o.role == 'stub':
                 found.append('%s (trusted border `%s`, %s:%d): %s' % (tok, o.block[:60], os.path.basename(o.where), o.line, ' '.join(code.split())[:100]))
+            elif o.kind == 'raw' and o.role == 'attr' and tok == 'exec_allows_no_decreases_clause':
+                # an explicit sidecar attribute on one extracted function: its loops carry no decreases clause
+                found.append('TERMINATION NOT PROVED (%s, %s:%d): loops of this function have no decreases clause' % (o.block[:80], os.path.basename(o.where), o.line))
             elif o.kind in ('src', 'rule') and tok == 'unsafe':
                 found.append('unsafe in extracted code %s:%d' % (o.where, o.line))
             else:
